@@ -25,7 +25,10 @@ func funcSeqs(maxLen int) [][]string {
 		if len(cur) == maxLen {
 			return
 		}
-		for _, b := range c14Base {
+		for bi, b := range c14Base {
+			if len(cur) > 0 && bi >= 6 {
+				continue // the re-entrant and the nil-returning function only in first position
+			}
 			rec(append(cur, fmt.Sprintf("%s%d", b, len(cur)+1)))
 		}
 	}
